@@ -714,6 +714,11 @@ func (n *ExtendsNode) Render(w io.Writer, ctx *RenderContext) error {
 	// The parent template runs under the same sandbox restrictions
 	parentCtx.sandboxed = ctx.sandboxed
 
+	// Variables that live in enclosing contexts (the including template's
+	// variables when the extending template is itself included, the caller's
+	// around a macro) stay visible to the parent template
+	parentCtx.parent = ctx.parent
+
 	// Pass along the parent template as lastLoadedTemplate for relative path resolution
 	parentCtx.lastLoadedTemplate = parentTemplate
 
